@@ -271,3 +271,19 @@ PROPS["C08"] = {
     "quick": [rapid("complete", "^TestPropComplete$", 700, shards=4)],
     "thorough": [rapid("complete", "^TestPropComplete$", 8000, shards=14)],
 }
+
+PROPS["C14"] = {
+    "pkg": "c14",
+    "level": "exploration",
+    "rule": ("Exhaustive: every assignment of {none, remote, via registry} to the n*n ordered pairs of n module locations (n=2 in quick: 81 "
+             "graphs; n=3 in thorough: 19683 graphs - all chains, diamonds, self-references and cycles incl. cycles through registry hops) x "
+             "{all locations in one package, one package each} x {single Add, Add with repeats}; plus rapid worlds: " + WORLD_RULE +
+             "Oracle over the call logs: each closure package fetched exactly once and no other, each registry version list and each selected "
+             "version's source address requested exactly once, the multiset of analysed (source, finder) pairs equals the reference closure, "
+             "every trace start is followed by exactly one matching success/failure with the real call in between, 'already' only after an "
+             "earlier success; termination is decided by a call budget (10x the reference bound), not a clock. Non-trivial = cycle/diamond, "
+             "duplicate Add or multi-artifact closure; distinct by case hash."),
+    "assumptions": ["only fault-free worlds for which the reference predicts no error are judged (C12 takes the rest)"],
+    "quick": [plain("exh2", "^TestExhaustiveGraphs$", shards=1, env={"VERIF_C14_LOCS": 2}), rapid("once", "^TestPropOnce$", 800, shards=4)],
+    "thorough": [plain("exh3", "^TestExhaustiveGraphs$", shards=10, env={"VERIF_C14_LOCS": 3}), rapid("once", "^TestPropOnce$", 12000, shards=6)],
+}
